@@ -17,6 +17,9 @@ CHECKS = {
             'the solver-chosen witness model of every path', '5/C02'),
     'C03': ('model_checking', 'rebuild/copy equivalence on symbolic probes, copy isolation, and soundness + completeness of compatible() as one solver '
             'query per path over both types\' symbolic limits and a symbolic probe value', '5/C03'),
+    'C04': ('model_checking', 'real Dispatcher + SecNode + RequestHandler loop over a fake-driver module: request sequences (<= 3) with symbolic payloads, '
+            'symbolic datatype limits, dynamic limits moved by earlier symbolic requests and a symbolic check-hook threshold; the oracle compares driver log, '
+            'cache snapshot, update stream and reply class', '5/C04'),
 }
 NOT_YET = 'check not built yet in this round (planned per DESIGN.md section 5); not claimed until its harness runs clean'
 NOT_APPLICABLE = {}
